@@ -4,14 +4,35 @@ use crate::server_error::ConnectionError;
 use crate::streaming::session::Session;
 use crate::streaming::systems::system::SharedSystem;
 use bytes::{BufMut, BytesMut};
+use futures::FutureExt;
 use iggy::bytes_serializable::BytesSerializable;
 use iggy::error::IggyError;
 use iggy::validatable::Validatable;
 use std::io::ErrorKind;
+use std::panic::AssertUnwindSafe;
 use std::sync::Arc;
 use tracing::{debug, error, info};
 
 const INITIAL_BYTES_LENGTH: usize = 4;
+
+/// Runs the connection loop until the connection ends. A panic inside the loop is caught and reported
+/// as an error, so that the caller always gets to remove the client and close the stream.
+pub(crate) async fn run_connection(
+    session: Arc<Session>,
+    sender: &mut SenderKind,
+    system: SharedSystem,
+) -> Result<(), ConnectionError> {
+    match AssertUnwindSafe(handle_connection(session, sender, system))
+        .catch_unwind()
+        .await
+    {
+        Ok(result) => result,
+        Err(_) => {
+            error!("Connection handler has panicked, closing the connection.");
+            Err(ConnectionError::from(IggyError::ConnectionClosed))
+        }
+    }
+}
 
 pub(crate) async fn handle_connection(
     session: Arc<Session>,
